@@ -42,8 +42,10 @@ def cases(tier, seed):
                     out.append(dict(kind='inv', m=m, n=n, geom=geom, offset=off, lam=lam, seed=seed))
     # total mass of unrestrained flat bays whose skin strips differ in thickness / density (relying on the bay defaults otherwise)
     import itertools
-    for ncut, how, stiff in itertools.product([0, 1, 2, 3], ['same', 'plyt', 'plyts', 'mu', 'stack'], ['none', 'b2d_f', 't2d']):
+    for ncut, how, stiff in itertools.product([0, 1, 2, 3], ['same', 'plyt', 'plyts', 'mu', 'stack'], ['none', 'b2d_f', 't2d', 'b2d_pair', 't2d+b2d']):
         if stiff != 'none' and ncut == 0:
+            continue
+        if stiff in ('b2d_pair', 't2d+b2d') and (ncut < 2 or how not in ('same', 'plyt')):
             continue
         out.append(dict(kind='baymass', ncut=ncut, how=how, stiff=stiff, seed=seed))
     return out
@@ -194,8 +196,30 @@ def check_baymass(case):
     elif case['stiff'] == 't2d':
         spb.add_tstiff2d(ys=ys[1], mu=1300., mf=3, nf=3, mb=3, nb=3, bf=0.03, fstack=[0., 90., 0.], fplyt=pan.PLYT, flaminaprop=pan.M6,
                          bb=0.06, bstack=[0., 90.], bplyt=pan.PLYT, blaminaprop=pan.M6)
-    spb.calc_k0(silent=True)
+    elif case['stiff'] in ('b2d_pair', 't2d+b2d'):
+        # two stiffeners with 2D regions of different (decreasing) series orders
+        fk = dict(mu=1300., bf=0.03, fstack=[0., 90., 0.], fplyt=pan.PLYT, flaminaprop=pan.M6)
+        if case['stiff'] == 'b2d_pair':
+            spb.add_bladestiff2d(ys=ys[1], mf=5, nf=4, **fk)
+        else:
+            spb.add_tstiff2d(ys=ys[1], mf=4, nf=4, mb=3, nb=4, bb=0.06, bstack=[0., 90.], bplyt=pan.PLYT, blaminaprop=pan.M6, **fk)
+        spb.add_bladestiff2d(ys=ys[2], mf=3, nf=3, **fk)
+    K0 = pan.dense(spb.calc_k0(silent=True))
     M = pan.dense(spb.calc_kM(silent=True))
+    # every amplitude that carries stiffness carries mass (mass matrix positive definite on the active amplitudes)
+    act = np.abs(np.diag(K0)) > 0
+    if M.shape != K0.shape:
+        fails.append(fail('bay kM and k0 have different sizes', sig=None, case=case))
+    else:
+        dm = np.diag(M)[act]
+        if np.any(dm <= 0):
+            fails.append(fail('bay kM has no mass on amplitudes that carry stiffness (not positive definite on the active amplitudes)', sig=None,
+                              case=case, n_massless=int(np.sum(dm <= 0))))
+        else:
+            Ma = M[np.ix_(act, act)] / np.sqrt(np.outer(dm, dm))
+            w = np.linalg.eigvalsh(Ma)
+            if w.min() <= 1e-10:
+                fails.append(fail('bay kM is not positive definite on the active amplitudes', sig=None, case=case, min_eig_scaled=float(w.min())))
     Ms = M[:nskin, :nskin]
     for k in range(3):
         cvec = np.zeros(nskin)
